@@ -784,10 +784,81 @@ func runC04Descheduled(e *core.Env) {
 	})
 }
 
+// ctxCreds are per-RPC credentials; with honour set they do what credentials that fetch a token do: give up
+// with the context's error when the context has ended.
+type ctxCreds struct{ honour bool }
+
+func (c ctxCreds) GetRequestMetadata(ctx context.Context, _ ...string) (map[string]string, error) {
+	if c.honour {
+		if err := ctx.Err(); err != nil {
+			return nil, fmt.Errorf("fetching token: %w", err)
+		}
+	}
+	return map[string]string{"authorization": "token"}, nil
+}
+func (ctxCreds) RequireTransportSecurity() bool { return false }
+
+// runC04Credentials: calls started on a context that has already ended, with per-RPC credentials among the call
+// options (credentials that ignore the context and credentials that give up with its error): a later call on an
+// ended context returns a Canceled / DeadlineExceeded status like any other, never a bare or wrapped context error.
+func runC04Credentials(e *core.Env) {
+	inp := NewInproc(&Service{}, carrierOpt{})
+	htt := NewHTTPServer(&Service{}, carrierOpt{})
+	defer inp.Close()
+	defer htt.Close()
+	caseNo := 0
+	for _, c := range []*Carrier{inp, htt} {
+		for _, honour := range []bool{false, true} {
+			for _, mode := range []string{"cancel", "deadline"} {
+				for _, stream := range []bool{false, true} {
+					caseNo++
+					if !e.Selected("ended-context-with-credentials", caseNo) {
+						continue
+					}
+					e.Begin("ended-context-with-credentials", caseNo, fmt.Sprintf("%s honour=%v %s stream=%v", c.Name, honour, mode, stream))
+					want := codes.Canceled
+					ctx, cancel := context.WithCancel(context.Background())
+					if mode == "deadline" {
+						want = codes.DeadlineExceeded
+						ctx, cancel = context.WithDeadline(context.Background(), time.Unix(1, 0))
+					}
+					cancel()
+					opt := grpc.PerRPCCredentials(ctxCreds{honour: honour})
+					var err error
+					pan := guard(func() {
+						if !stream {
+							err = c.CC.Invoke(ctx, Unary.Method(), &tpb.Message{}, new(tpb.Message), opt)
+							return
+						}
+						var st grpc.ClientStream
+						st, err = c.CC.NewStream(ctx, ServerStream.StreamDesc(), ServerStream.Method(), opt)
+						if err == nil {
+							st.SendMsg(&tpb.Message{})
+							st.CloseSend()
+							err = st.RecvMsg(new(tpb.Message))
+						}
+					})
+					e.Eval(fmt.Sprintf("ended-context-with-credentials|%s|%v|%s|%v", c.Name, honour, mode, stream), true)
+					kind := map[bool]string{true: "stream", false: "unary"}[stream]
+					w := map[string]any{"carrier": c.Name, "credentials_honour_context": honour, "mode": mode, "stream": stream, "error": fmt.Sprint(err)}
+					if pan != "" {
+						e.Violate(c.Name+"/"+kind+"/ended-context-with-credentials/panic", trunc(pan, 400), w)
+						continue
+					}
+					if st, isSt := status.FromError(err); err == nil || !isSt || st.Code() != want {
+						e.Violate(fmt.Sprintf("%s/%s/ended-context-with-credentials/%s", c.Name, kind, map[bool]string{true: "non-status-error", false: "wrong-code"}[!isSt]), fmt.Sprintf("a call with per-RPC credentials (honouring the context: %v) started after the context had ended (%s) returned %v (%T), want a status with code %v", honour, mode, err, err, want), w)
+					}
+				}
+			}
+		}
+	}
+}
+
 func runC04(e *core.Env, nScripts, maxHooks int) {
 	curEnv = e
 	runC04Extra(e)
 	runC04Descheduled(e)
+	runC04Credentials(e)
 	inp := NewInproc(&Service{}, carrierOpt{})
 	htt := NewHTTPServer(&Service{}, carrierOpt{})
 	defer inp.Close()
